@@ -6,7 +6,7 @@
 (* computes in the state reached so far.  TLC is the judge; the harness    *)
 (* that recorded the trace contains no oracle.                             *)
 (***************************************************************************)
-EXTENDS FileSem, Abi, Features, AbiRef, Iter, Json, IOUtils
+EXTENDS FileSem, Abi, Features, AbiRef, Iter, Bulk, Json, IOUtils
 
 Rec == ndJsonDeserialize(IOEnv.TRACE)
 
@@ -249,6 +249,12 @@ OkSQ(e) ==
     ELSE IF e.faulted THEN Out(e) = "err"
     ELSE IF sth.hadfault THEN (Out(e) = "err" \/ QueryOk(sth.f, sth.eb, e, TRUE))   \* C17: no residue
     ELSE (QueryOk(sth.f, sth.eb, e, TRUE) \/ StricterLikeSlice(e)) /\ RelC07(sth.f, sth.eb, e)
+\* a long history in one event (Bulk.tla): n distinct caller-made ranges, all inside the file
+OkSBulk(e) ==
+    IF sth = <<>> THEN Out(e) = "closed"
+    ELSE LET B(i) == ByteAt(sth.f, i)
+             x == BulkExp(B, sth.f.len, e.n, e.m)
+         IN Out(e) = "ok" /\ e.res.nok = x[1] /\ e.res.sum = x[2]
 LazySQ(e) == sth # <<>> => ReadsWithin(e.io, QRanges(sth.f, sth.eb, e, TRUE))
 
 \* ---- C19: exported ABI definitions ------------------------------------------------------------
@@ -290,6 +296,7 @@ Allowed(e) ==
       [] e.op = "feature_core" -> FeatureCoreOk(e)
       [] e.op = "sopen" -> OkSOpen(e)
       [] e.op = "sq" -> OkSQ(e)
+      [] e.op = "sbulk" -> OkSBulk(e)
       [] e.op = "open" -> OkOpen(e)
       [] e.op = "q" -> OkQ(e) /\ (Out(e) # "closed" => PrefixRel(e))
       [] e.op = "read_int" -> OkReadInt(e)
@@ -304,7 +311,7 @@ Allowed(e) ==
 
 \* C01 / C06 riders on every event that has a result: no panic, no allocation (slice parser)
 NoPanic(e) == Has(e, "res") => (Out(e) # "panic" /\ (Has(e.res, "walk") => e.res.walk.out # "panic"))
-NoAlloc(e) == (Has(e, "allocs") /\ e.op \notin {"sopen", "sq"}) => e.allocs = 0
+NoAlloc(e) == (Has(e, "allocs") /\ e.op \notin {"sopen", "sq", "sbulk"}) => e.allocs = 0
 \* C08 riders on stream calls: bounded allocation, lazy reads
 StreamBound(e) == CASE e.op = "sopen" -> AllocBound(e, FileOf(e.fileslot))
                     [] e.op = "sq" -> (sth # <<>> => AllocBound(e, sth.f))
